@@ -134,6 +134,9 @@ Grid ==
   \cup [c : {"w_builder"}, w : {0, 1}, b : {0, 2}, a : {0, 1}, s : {0, 4}, fp : Fps]
   \cup [c : {"w_new"}, n : {0, 1, 8, 100, 1000}, s : SamplesSet]
   \cup [c : {"tinylfu_new"}, n : Sizes, s : SamplesSet, fp : Fps]
+  \* large estimators (sketch rows of 64 KiB and more): construction and first use
+  \cup [c : {"tinylfu_new"}, n : {131072, 131073, 1048576}, s : {4}, fp : {"quarter", "tiny"}]
+  \cup [c : {"w_with_sizes"}, w : {2000}, b : {160000}, a : {40000}, s : {4}]
   \cup [c : {"raw_from_vec", "raw_from_iter_nohint", "raw_from_slice", "raw_from_mut_slice", "raw_from_array", "raw_from_vecdeque",
              "raw_from_linkedlist", "raw_from_hashset", "raw_from_btreeset", "raw_from_binaryheap", "raw_from_hashmap",
              "raw_from_btreemap", "raw_collect"}, n : Counts]
